@@ -32,7 +32,7 @@ fn judge_case(c: &Case) -> Outcome {
         Ok(l) => l,
         Err(s) => return Outcome::discard(&format!("model-stuck:{s:?}")),
     };
-    let res = build_mem(&print_prog(&prog), c.w as usize, &MemOpts { order: None, emit: false });
+    let res = build_mem(&print_prog(&prog), c.w as usize, &MemOpts { emit: false, ..Default::default() });
     let n_attr = c.t.size.is_some() as usize + c.t.align.is_some() as usize + c.t.packed as usize + c.t.fields.iter().filter(|f| f.addr.is_some()).count();
     let nontrivial = c.t.fields.len() >= 2 || n_attr >= 1;
     let class = match &lay.reject {
